@@ -591,8 +591,8 @@ def total_least_squares(x, y, func, silent=False, **kwargs):
     if not silent:
         print('Fit with', n_parms, 'parameter' + 's' * (n_parms > 1))
 
-    x_f = np.vectorize(lambda o: o.value)(x)
-    dx_f = np.vectorize(lambda o: o.dvalue)(x)
+    x_f = np.vectorize(lambda o: o.value, otypes=[np.float64])(x)
+    dx_f = np.vectorize(lambda o: o.dvalue, otypes=[np.float64])(x)
     y_f = np.array([o.value for o in y])
     dy_f = np.array([o.dvalue for o in y])
 
